@@ -2,8 +2,10 @@
 \* E: every event x 11 leaf predicates as runtime filter (entries rt, emit!, emit!(evt:), direct; 3 predicates for
 \*    emit_core::emit and Emitter-for-Runtime) and as call-site `when` filter over a rejecting runtime filter;
 \* F: all filter trees of depth <= 2 over {true,false} (1009) and depth <= 1 over 4 predicates, as runtime and as call-site filter;
-\* D: all destination trees of depth <= 2 (313: leaf, None, Some, and_to, wrap_emitter(from_filter(5 filters)), &, Box, Arc, erased)
+\* D: all destination trees of depth <= 2 (685: leaf, None, Some, and_to, wrap_emitter(from_filter(5 filters)), wrapping::from_fn
+\*    drop/pass/prepend, nested Runtime (2 settings), &, Box, Arc, erased, AssertInternal)
 \*    x own/ambient x accepting/rejecting filter x entries rt, direct, emit!; depth <= 1 for the other entries.
+\* R: a nested Runtime as destination: 9 filter predicates x ambient {<>, a, b} x clock {none, 9} x 3 destination trees x 32 events, rt / direct.
 SPECIFICATION Spec
 CONSTANTS
     Scens <- MC_Scens
